@@ -308,6 +308,31 @@ def r1(ctx):
             ctx.ob(R, f"{g.qual}: `{norm(x)}` cannot fail on a missing key", has_membership(x, table, key), ctx.w(g, x),
                    "KeyError here escapes the handle_* entry point (it runs outside _try_call_hook): no hook runs, the "
                    "message is neither logged nor forwarded; give pop() a default or test membership first")
+    io_fns = list(pre)
+    for g in pre:
+        for c in calls(g.node, into_defs=True):
+            if isinstance(c.func, ast.Name):
+                cs_ = [h_ for h_ in repo.funcs.get(c.func.id, []) if h_.cls is None and h_.parent_fn is None and
+                       (h_.module is g.module or g.module.imports.get(c.func.id, "").endswith("." + c.func.id))]
+                if len(cs_) == 1 and cs_[0] not in io_fns:
+                    io_fns.append(cs_[0])
+    OS_CALLS = {"os.stat", "os.lstat", "os.path.getmtime", "os.path.getsize", "os.listdir", "os.scandir", "open", "os.readlink"}
+    OS_CATCH = {"*", "OSError", "EnvironmentError", "IOError", "Exception", "BaseException"}
+    n_io = 0
+    for g in io_fns:
+        for c in calls(g.node, into_defs=True):
+            if (ap(c.func) or "") not in OS_CALLS:
+                continue
+            if any(tc.section == "body" and any(handler_catches_all(h_) and handler_reraises(h_) != "always"
+                                                for h_ in tc.node.handlers) for tc in try_contexts(c)):
+                n_io += 1
+                continue
+            n_io += 1
+            caught = any(tc.section == "body" and any(set(handler_names(h_)) & OS_CATCH and handler_reraises(h_) != "always"
+                                                      for h_ in tc.node.handlers) for tc in try_contexts(c))
+            ctx.ob(R, f"{g.qual}: `{norm(c)}` on the bare pre-dispatch path is contained for every OSError", caught, ctx.w(g, c),
+                   "only some OSError subclasses are handled: ENOTDIR / EACCES / ELOOP on an addon's dependency path escape "
+                   "the handle_* entry point for every message until the path is repaired")
     ctx.ob(R, "pre-dispatch bookkeeping of the entry points checked for partial dict operations", True, ADDONS,
            f"{len(pre)} functions, {len(dict_attrs)} dict tables, {n_partial} pop/del sites without default")
 
@@ -862,6 +887,15 @@ def r3(ctx):
             ok = attr == "queued" and _is_true(st.value) and _path_fact(st.node, "self.finalized", False, take.node)
             ctx.ob(R, f"Message.take: {st.path} = {shown} only marks the unfinalized original as queued", ok,
                    ctx.w(take, st.node), "take() must touch the original only by `queued = True` under `not self.finalized`")
+    tcfg = CFG(take.node)
+    for n in [n for n in tcfg.nodes if n.kind == "stmt" and isinstance(n.ast, ast.Assign) and _is_true(n.ast.value)
+              and any(ap(t) == "self.queued" for t in n.ast.targets)]:
+        path = cfg_search(tcfg, [n], target=lambda x: x is tcfg.raise_exit, follow_exc=lambda x: cfg_node_fallible(tcfg, x),
+                          start_edges="normal")
+        ctx.ob(R, "Message.take: nothing can fail after the original was marked queued", path is None, ctx.w(take, n.ast),
+               "take() condemns the original (queued => dropped and acked) before the copy exists: if the copy fails "
+               "(deepcopy of something hanging off the message) the hook's error is swallowed and the message is lost",
+               tcfg.describe_path(path) if path else None)
     copy_resets = {}
     for st in stores(take.node, into_defs=False):
         if st.kind == "assign" and "." in st.path and not st.path.startswith("self."):
@@ -1187,8 +1221,76 @@ def r8(ctx):
             # (b) in a finally of the registering method
             ok_b = any(any(isinstance(a, ast.Try) and any(l is s_ or any(l is x for x in ast.walk(s_)) for s_ in a.finalbody)
                            for a in ancestors(l)) for l in unsub_loops(m.node, ref, colls))
+            # what was taken is handed to its consumer on every way out: take() condemns the original, so a copy that is
+            # discarded (hand-over failing into a handler that swallows it, early return) is a message nobody owns
+            bcfg = CFG(body)
+            take_calls = [c for c in calls(body) if call_attr(c) == "take" and not c.args]
+            taken_names = set()
+            for tk in take_calls:
+                st_ = enclosing_stmt(tk)
+                if isinstance(st_, ast.Assign) and st_.value is tk:
+                    taken_names |= {ap(t) for t in st_.targets}
+            handovers = [c for c in calls(body) if call_attr(c) in ("put_nowait", "put", "set_result", "append", "send")
+                         and any(ap(a) in taken_names for a in c.args)]
+            hn = {n for c in handovers for n in bcfg.stmt_nodes_containing(c)}
+            for tk in take_calls:
+                lost = cfg_search(bcfg, bcfg.stmt_nodes_containing(tk), target=lambda n: n is bcfg.exit,
+                                  avoid=lambda n: n in hn, follow_exc=lambda n: False, start_edges="normal")
+                if lost is None and hn:
+                    lost = cfg_search(bcfg, list(hn), target=lambda n: n is bcfg.exit, avoid=lambda n: n in hn,
+                                      follow_exc=lambda n: False, start_edges="exc")
+                ctx.ob(R, f"{m.qual}: what subscriber {ref} takes is handed over on every way out", lost is None and bool(hn),
+                       ctx.w(m, tk), "a path completes the subscriber after take() without the copy reaching its queue / "
+                       "future (e.g. the hand-over fails into a handler that only logs): the original is dropped, nobody "
+                       "holds a copy", bcfg.describe_path(lost) if lost else None)
+            for c in handovers:
+                qn = ap(c.func.value) if isinstance(c.func, ast.Attribute) else None
+                for st_ in stores(m.node, into_defs=False):
+                    if st_.path == qn and st_.kind == "assign" and isinstance(st_.value, ast.Call) and \
+                            (ap(st_.value.func) or "").split(".")[-1] in ("Queue", "LifoQueue", "PriorityQueue", "deque"):
+                        bound = [a for a in st_.value.args] + [k.value for k in st_.value.keywords if k.arg in ("maxsize", "maxlen")]
+                        unbounded = all(isinstance(b_, ast.Constant) and not b_.value for b_ in bound)
+                        ctx.ob(R, f"{m.qual}: the buffer taken messages are parked in ({qn}) is unbounded", unbounded,
+                               ctx.w(m, st_.node), "a bounded buffer refuses (or silently evicts) copies of messages whose "
+                               "originals were already condemned by take()")
+            # a subscriber that completes a future takes the message only while somebody still waits for it
+            futs = {ap(c.func.value) for c in calls(body) if call_attr(c) == "set_result" and isinstance(c.func, ast.Attribute)
+                    and ap(c.func.value)}
+            takes_once = False
+            if futs:
+                lives = []
+
+                def not_done_facts(node):
+                    from .common import single_def
+                    out_ = []
+                    for e, pol in facts(node, body):
+                        d_ = single_def(body, e.id) if isinstance(e, ast.Name) else None
+                        out_.extend(atoms(d_, pol) if d_ is not None else [(e, pol)])
+                    return {ap(e.func.value) for e, pol in out_ if not pol and isinstance(e, ast.Call) and not e.args
+                            and isinstance(e.func, ast.Attribute) and e.func.attr == "done"}
+                for tk in [c for c in calls(body) if call_attr(c) == "take" and not c.args]:
+                    from .common import single_def
+                    fs_ = []
+                    for e, pol in facts(tk, body):
+                        d_ = single_def(body, e.id) if isinstance(e, ast.Name) else None
+                        fs_.extend(atoms(d_, pol) if d_ is not None else [(e, pol)])   # waiting = not fut.done()
+                    live = any(not pol and isinstance(e, ast.Call) and not e.args and isinstance(e.func, ast.Attribute)
+                               and e.func.attr == "done" and ap(e.func.value) in futs for e, pol in fs_)
+                    lives.append(live)
+                    ctx.ob(R, f"{m.qual}: subscriber {ref} takes `{norm(tk)}` only for a waiter that is still there", live,
+                           ctx.w(m, tk), f"take() is not dominated by `not {sorted(futs)[0]}.done()`: after the waiter was "
+                           f"cancelled / timed out the still-subscribed handler takes the next matching message (queued => "
+                           f"dropped from the wire) although nobody receives it")
+            # a subscriber that takes only while its future is pending and completes that future under the same test
+            # takes at most once: a stale registration that fires again neither takes nor completes anything
+            if futs and lives and all(lives):
+                sets = [c for c in calls(body) if call_attr(c) == "set_result" and isinstance(c.func, ast.Attribute)]
+                takes_once = bool(sets) and all(ap(c.func.value) in not_done_facts(c) for c in sets)
+            if takes_once and not (ok_a or ok_b):
+                ctx.note(f"C07.R8: {m.qual}: subscriber {ref} is not removed from every notifier, but it takes at most once "
+                         f"(take and set_result both under `not <future>.done()`): stale registrations are harmless")
             ctx.ob(R, f"{m.qual}: taking subscriber {ref} is removed from every notifier it was registered on",
-                   ok_a or ok_b, ctx.w(m, body if ctor is None else ctor[1]),
+                   ok_a or ok_b or takes_once, ctx.w(m, body if ctor is None else ctor[1]),
                    "the subscriber stays registered under the other message names: it keeps take()ing messages / flows "
                    "that nobody consumes (never forwarded, never handed back)")
     ctx.floor(R, "taking subscribers registered on several notifiers", found, 2)
@@ -1209,10 +1311,41 @@ def r9(ctx):
     msg = params[-1]
     cfg = CFG(f.node)
     drops = {n for n in cfg.nodes for c in cfg_node_calls(cfg, n) if call_attr(c) == "drop_message" and c.args and ap(c.args[0]) == msg}
+    # `if not <msg>.finalized: drop_message(<msg>)`: the message is dropped here or was already sent / dropped
+    # (the caller forwards only `if not message.finalized`), so passing this test is as good as the drop
+    for n in list(cfg.nodes):
+        if n.kind == "test" and isinstance(n.ast, ast.If) and not n.ast.orelse:
+            at = atoms(n.ast.test, True)
+            if len(at) == 1 and ap(at[0][0]) == f"{msg}.finalized" and at[0][1] is False and any(
+                    call_attr(c) == "drop_message" and c.args and ap(c.args[0]) == msg for st_ in n.ast.body for c in calls(st_)):
+                drops.add(n)
     rets = [n for n in cfg.nodes if n.kind == "stmt" and isinstance(n.ast, ast.Return) and isinstance(n.ast.value, ast.Constant)
             and n.ast.value.value]
     ctx.floor(R, "own claims (return <truthy constant>)", len({id(n.ast) for n in rets}), 1)
     loops = [l for l in walk(f.node) if isinstance(l, (ast.For, ast.AsyncFor))]
+    # a message is dropped / sent once: not once per sub-item (command, block, ...) of that same message
+    derived = {msg}
+    for _ in range(5):
+        for st in stores(f.node, into_defs=False):
+            if st.kind == "assign" and isinstance(st.target, ast.Name) and st.value is not None and \
+                    any(isinstance(x, ast.Name) and x.id in derived for x in ast.walk(st.value)):
+                derived.add(st.path)
+    n_loop_sinks = 0
+    for l in loops:
+        if not any(isinstance(x, ast.Name) and x.id in derived for x in ast.walk(l.iter)):
+            continue
+        heads = {n for n in cfg.nodes_for(l) if n.kind == "loop"}
+        for c in [c for st_ in l.body for c in calls(st_) if call_attr(c) in ("drop_message", "send", "send_reliable")
+                  and c.args and ap(c.args[0]) == msg]:
+            n_loop_sinks += 1
+            cn = cfg.stmt_nodes_containing(c)
+            again = cfg_search(cfg, cn, target=lambda n: n in heads, follow_exc=lambda n: False, start_edges="normal")
+            ctx.ob(R, f"{f.qual}: {norm(c)} inside `for {norm(l.target)} in {norm(l.iter)}` leaves the loop", again is None,
+                   ctx.w(f, c), f"the loop runs once per item of the same message and goes on after the call: the second "
+                   f"{call_attr(c)} of an already finalized message raises (swallowed as a hook failure) and a message of "
+                   f"which only some items were handled is dropped all the same", cfg.describe_path(again) if again else None)
+    ctx.ob(R, f"{f.qual}: no per-item drop/send of the message inside loops over its own contents", True, f.where,
+           f"{n_loop_sinks} call(s) inside such loops")
     seen_keys = set()
     for r in rets:
         if id(r.ast) in seen_keys:
